@@ -299,7 +299,8 @@ func vtDecode(in []byte, orig *VersionedTransaction) vM {
 	// from and not of anything remembered from decoding:
 	//  (a) decode from a scratch buffer, overwrite the buffer, hash: same hash as a value decoded
 	//      from an intact copy;
-	//  (b) decode, change one payload field (one more byte of extra), hash: another hash.
+	//  (b) decode, change one payload field (the last byte of extra, or one byte of extra where
+	//      there was none), hash: another hash.
 	vCall(func() error {
 		fresh, err := UnmarshalVersionedTransaction(append([]byte{}, in...))
 		if err != nil {
@@ -319,7 +320,12 @@ func vtDecode(in []byte, orig *VersionedTransaction) vM {
 		if err != nil {
 			return err
 		}
-		edited.Extra = append(append([]byte{}, edited.Extra...), 0x5a)
+		if n := len(edited.Extra); n > 0 { // keep the length: the value may be as long as allowed
+			edited.Extra = append([]byte{}, edited.Extra...)
+			edited.Extra[n-1] ^= 0x5a
+		} else {
+			edited.Extra = []byte{0x5a}
+		}
 		ev["hash_moves_after_edit"] = edited.PayloadHash() != hFresh
 		return nil
 	})
@@ -329,7 +335,9 @@ func vtDecode(in []byte, orig *VersionedTransaction) vM {
 func vtEncode(s *vtTx) (*VersionedTransaction, []byte, string) {
 	var obj *VersionedTransaction
 	var base []byte
-	er, _ := vCall(func() error { obj = vtBuild(s); base = obj.Marshal(); return nil })
+	// the encoder proper (Marshal without its debug self-check, which would run the decoder under
+	// test and turn a decoder that refuses the encoder's output into an encoder panic)
+	er, _ := vCall(func() error { obj = vtBuild(s); base = obj.marshal(); return nil })
 	return obj, base, er
 }
 
